@@ -5,7 +5,8 @@
            <id> T graph <start> <table>   template instantiation with the generated limit
            <id> T ladder <k>              template k instantiates k-1 ... 0 (a chain of k+1 instantiations)
            <id> X <depth>                 XPath parser nesting counter at <depth>
-   output: <id> ok <high-water mark> | <id> circ <variable> <stack depth at the throw> | <id> err <high-water mark>
+   output: <id> ok <high-water mark> | <id> circ <variable> <stack depth at the throw> | <id> deep <variable> <stack depth>
+           (nesting limit of the variant that has one) | <id> err <high-water mark>
            | <id> fuel | <id> accept | <id> refuse *)
 let table_of (s : string) : nat list array =
   let rows = String.split_on_char ';' s in
@@ -20,6 +21,7 @@ let show_g (r : gres) : string =
   match r with
   | GOk s -> Printf.sprintf "ok %d" (int_of_nat s.g_hw)
   | GCirc (s, w) -> Printf.sprintf "circ %d %d" (int_of_nat w) (List.length s.g_guard)
+  | GDeep (s, w) -> Printf.sprintf "deep %d %d" (int_of_nat w) (List.length s.g_guard)
   | GFuel -> "fuel"
 
 let show_t (r : tres) : string =
@@ -38,11 +40,11 @@ let () =
     | id :: "V" :: n :: v :: t :: _ ->
         let n = nat_of_int (int_of_string n) in
         Printf.printf "%s %s\n" id
-          (show_g (g_eval variable_guard_search variable_value_stored (fn_of (table_of t)) (S n) g_init (nat_of_int (int_of_string v))))
+          (show_g (g_eval variable_guard_search variable_value_stored variable_dlimit (fn_of (table_of t)) (S n) g_init (nat_of_int (int_of_string v))))
     | id :: "A" :: n :: v :: t :: _ ->
         let n = nat_of_int (int_of_string n) in
         Printf.printf "%s %s\n" id
-          (show_g (g_eval attribute_set_guard_search attribute_set_value_stored (fn_of (table_of t)) (S n) g_init (nat_of_int (int_of_string v))))
+          (show_g (g_eval attribute_set_guard_search attribute_set_value_stored None (fn_of (table_of t)) (S n) g_init (nat_of_int (int_of_string v))))
     | id :: "T" :: "graph" :: v :: t :: _ ->
         Printf.printf "%s %s\n" id
           (show_t (t_call template_limit_cmp template_nesting_limit (fn_of (table_of t)) tfuel (t_init template_stack_initial) (nat_of_int (int_of_string v))))
